@@ -1,5 +1,5 @@
 (* C12 -- Each partition is assigned to exactly one consumer of a group. *)
-From LB Require Import Base.Prelude Meta.Groups Meta.GroupsProofs.
+From LB Require Import Base.Prelude Meta.Groups Meta.GroupsProofs Meta.GroupsSingle.
 Open Scope Z_scope.
 
 (* After ANY sequence of joins (of non-members), leaves/expiries and stream deletions, for
@@ -30,6 +30,21 @@ Theorem C12_single_stream_balanced : forall (np : sid -> Z) s ms ow,
   (forall t, In t ow -> t_stream t = s) -> has_sub s ms -> spread s ms (balance np s ms ow).
 Proof. exact balance_single_stream. Qed.
 Print Assumptions C12_single_stream_balanced.
+
+(* ... and so in EVERY state of a group consuming a single stream, after any history of joins
+   and leaves/expiries (any ids, any order, any partition count): all assignments are of that
+   stream and the members' partition counts differ by at most one.  Such histories are
+   histories of C12_exactly_one_owner as well (second theorem). *)
+Theorem C12_single_stream_histories_balanced : forall (np : sid -> Z) s g, sreach np s g ->
+  (forall m, In m (g_members g) -> m_streams m = [s]) /\
+  (forall t, In t (g_owners g) -> t_stream t = s) /\
+  spread s (g_members g) (g_owners g).
+Proof. exact sreach_balanced_flat. Qed.
+Print Assumptions C12_single_stream_histories_balanced.
+
+Theorem C12_single_stream_histories_reachable : forall (np : sid -> Z) s g, sreach np s g -> greachable np g.
+Proof. exact sreach_greachable. Qed.
+Print Assumptions C12_single_stream_histories_reachable.
 
 (* Operations carrying an older group epoch are refused (and so change nothing). The
    assignment is a function of the operation sequence by construction of the model; that
